@@ -68,8 +68,31 @@ class ClassModel:
             stmts.append(containing_statement(site))
         stmts.extend(preceding_statements(site))
         first = True
-        for s in stmts:
-            for call in uncond_calls(s):
+
+        def all_operand_calls(cond, op):
+            """calls evaluated when every operand of a top-level `op` chain was evaluated (|| all false, && all true)"""
+            c0 = strip(cond)
+            while c0 is not None and c0.get('kind') in ('ParenExpr', 'ImplicitCastExpr', 'ExprWithCleanups') and kids(c0):
+                c0 = strip(kids(c0)[0])
+            if c0 is not None and c0.get('kind') == 'BinaryOperator' and c0.get('opcode') == op:
+                return all_operand_calls(c0['inner'][0], op) + all_operand_calls(c0['inner'][1], op)
+            return uncond_calls({'kind': 'ExprStmt', 'inner': [c0]}) if c0 is not None else []
+        extra_calls = []
+        for s in preceding_statements(site):
+            if s.get('kind') == 'IfStmt':
+                cnd, thn, els_ = if_parts(s)
+                # we are past an `if (A || B) <leave>`: A and B were both evaluated (and false)
+                if thn is not None and not falls_through(thn) and els_ is None:
+                    extra_calls += all_operand_calls(cnd, '||')
+        for a_ in ancestors(site):
+            if a_.get('kind') == 'IfStmt':
+                cnd, thn, els_ = if_parts(a_)
+                if els_ is not None and any(y is site for y in walk(els_)):
+                    extra_calls += all_operand_calls(cnd, '||')
+                elif thn is not None and any(y is site for y in walk(thn)):
+                    extra_calls += all_operand_calls(cnd, '&&')
+        for s in stmts + [None]:
+            for call in (uncond_calls(s) if s is not None else extra_calls):
                 if call is site or any(a is call for a in ancestors(site)) and False:
                     continue
                 d = callee_decl(call, self.unit)
@@ -644,6 +667,22 @@ def run(ctx):
                             c_, a_, b_ = kids(d1)[:3]
                             va, vb = rd.inl.c(a_), rd.inl.c(b_)
                             ok = (va == rd.cap or _holds_le(with_cond(rels, c_, True, rd.inl), va, rd.cap)) and (vb == rd.cap or _holds_le(with_cond(rels, c_, False, rd.inl), vb, rd.cap))
+                        if not ok:
+                            # v + (cond ? a : b) with constant arms and a comparison as condition: decided per arm
+                            import re as _re2
+                            m2 = _re2.search(r'\(\(([^()?]+) (<|<=|>|>=|==|!=) ([^()?]+)\) \? (\d+) : (\d+)\)', val)
+                            if m2:
+                                from guard import derive_strict, FLIP as _FL
+                                NEG = {'<': '>=', '<=': '>', '>': '<=', '>=': '<', '==': '!=', '!=': '=='}
+                                def arm_val(k_):
+                                    v2 = val.replace(m2.group(0), str(k_))
+                                    v2 = _re2.sub(r'^\(0 \+ (.+)\)$', r'\1', v2)
+                                    v2 = _re2.sub(r'^\((.+) \+ 0\)$', r'\1', v2)
+                                    return v2
+                                rel_t = derive_strict(list(rels) + [(m2.group(1), m2.group(2), m2.group(3))])
+                                rel_f = derive_strict(list(rels) + [(m2.group(1), NEG[m2.group(2)], m2.group(3))])
+                                vt, vf = arm_val(int(m2.group(4))), arm_val(int(m2.group(5)))
+                                ok = (vt == rd.cap or _holds_le(rel_t, vt, rd.cap)) and (vf == rd.cap or _holds_le(rel_f, vf, rd.cap))
                         ptr_diff = any(y.get('kind') == 'BinaryOperator' and y.get('opcode') == '-' and '*' in (qtype(strip(y['inner'][0])) or '') for y in walk(D[1]))
                         if not ok and ptr_diff:
                             ctx.undecided(R, key, x, 'the cursor is set from a pointer difference (%s): positions obtained from iterator / pointer searches are not modelled' % val)
